@@ -174,23 +174,34 @@ def limit_mixes(case, nmix_exact, max_runs=4000):
 
 def variant(rng, case):
     """turn a plain column into one of the oracle-only configurations (stagnant / multi_d / implicit / solids)"""
-    c = dict(case)
-    c["sols"] = dict(case["sols"])
+    import copy
+    c = copy.deepcopy(case)
     n = c["n"]
     r = rng.random()
     if r < 0.3:
         c["mcd"] = {"dw": rng.choice(["1e-9", "0.3e-9", "2e-9"]), "por": rng.choice(["0.3", "1", "0.1"])}
+        c["variant"] = "mcd"
     elif r < 0.5:
         c["mcd"] = {"dw": "1e-9", "por": rng.choice(["0.3", "1"])}
         c["implicit"] = {"maxmixf": rng.choice(["1", "3", "10"])}
+        c["variant"] = "implicit"
     elif r < 0.8:
-        # one stagnant layer with exchange factor: stagnant solutions n+2 .. 2n+1
-        c["stag"] = {"n": 1, "exch": dec(rng, 1e-6, 1e-3, 2), "thm": rng.choice(["0.3", "0.2"]), "thim": rng.choice(["0.1", "0.05"])}
+        # one stagnant layer with exchange factor: stagnant solutions n+2 .. 2n+1. The engine's mobile/immobile
+        # exchange conserves mass when the water masses are in the ratio of the porosities: mobile water 1 kg,
+        # immobile water thim/thm kg.
+        thm, thim, wim = rng.choice([("0.2", "0.1", "0.5"), ("0.4", "0.1", "0.25"), ("0.3", "0.15", "0.5"), ("0.25", "0.05", "0.2")])
+        c["stag"] = {"n": 1, "exch": dec(rng, 1e-6, 1e-3, 2), "thm": thm, "thim": thim}
+        for k in c["sols"]:
+            c["sols"][k]["water"] = "1"
         for i in range(1, n + 1):
-            if rng.random() < 0.8:
-                c["sols"][str(i + 1 + n)] = solution(rng, 1, True, False)
+            if rng.random() < 0.85:
+                so = solution(rng, 1, True, False)
+                so["water"] = wim
+                c["sols"][str(i + 1 + n)] = so
+        c["variant"] = "stagnant"
     else:
         c["solids"] = rng.choice(["exchange", "calcite"])
+        c["variant"] = c["solids"]
     return c
 
 
@@ -275,6 +286,24 @@ def render(case, headings=None):
         L.append(" -implicit true %s" % case["implicit"]["maxmixf"])
     L.append("END")
     return "\n".join(L) + "\n"
+
+
+def _nacl(c):
+    return {"water": "1", "pH": "7", "el": {"Na": c, "Cl": c}}
+
+
+def corpus():
+    """minimised past findings (replayed first on every run).
+    [0] stale `dav` in init_mix (fixed by /repo 02a99847): a zero dispersivity after two non-zero ones made
+        m1[2] = 0.2 but m[3] = 1/15: 13.3 % of every solute vanished in one shift.
+    [1] the same with backward flow and the zero in the middle."""
+    base = {"kind": "transport", "n": 3, "shifts": 2, "flow": "forward", "bc": [3, 3], "lengths": ["1"],
+            "disps": ["0.1", "0.1", "0"], "diffc": "0", "timest": "0", "correct_disp": False, "stag": None, "mcd": None,
+            "implicit": None, "solids": None,
+            "sols": {"0": _nacl("0.001"), "1": _nacl("1"), "2": _nacl("0.001"), "3": _nacl("0.001")}}
+    second = dict(base, n=4, flow="back", disps=["0.2", "0", "0.1", "0.3"], lengths=["0.5"], diffc="1e-9", timest="1000",
+                  sols={"1": _nacl("0.001"), "2": _nacl("0.5"), "3": _nacl("0.001"), "4": _nacl("2"), "5": _nacl("0.01")})
+    return [base, second]
 
 
 HEADS = ["cell", "step", "state", "water", "H", "O", "cb"] + ["m_" + e for e in ELEMENTS] + ["c_" + e for e in ELEMENTS]
